@@ -1231,7 +1231,17 @@ impl Visitor<Diagnostic> for LibraryRenderer {
         };
         self.write_ws(op);
 
-        self.visit_expr_kind(&node.term)
+        // The operand of a unary operator is a primary expression, so a nested unary
+        // operator needs parentheses.
+        let nested = matches!(node.term, dsl::textual::ExprKind::UnaryOp(_));
+        if nested {
+            self.write_ws("(");
+        }
+        self.visit_expr_kind(&node.term)?;
+        if nested {
+            self.write_ws(")");
+        }
+        Ok(())
     }
 
     fn visit_function(&mut self, node: &dsl::textual::Function) -> Result<Self::Value, Diagnostic> {
